@@ -647,9 +647,14 @@ def get(name, tier, seed):
         nearly3["prefix"] = [["kraus", "state", ["A.p"], "dephase", {"p": 2.5e-6}]]
         nearly4 = W1({"A.f": 1, "A.p": "L"}, contraction=False)
         nearly4["prefix"] = [["kraus", "state", ["A.p"], "ampdamp", {"g": 1.2e-5}]]
-        w8 = SEEDS_W3[:2] + SEEDS_W1[1:2] + [("W3/nearly-pure-1e-7", nearly, 1), ("W3/nearly-pure-1e-3", nearly2, 1), ("W3/nearly-pure-5e-6", nearly3, 1), ("W1/nearly-pure-ampdamp-1.2e-5", nearly4, 1)] + rich_seeds(1)[1:]
+        nearlab = W3({"A.f": 1, "A.f.dim": 3})      # Fock vector (1-4.5e-6)|1> + 3e-3|2>: nearly, but not, a number state
+        nearlab["prefix"] = [["op", "state", ["A.f"], "FCustom", {"tag": "tiny"}]]
+        nearlab2 = W1({"A.f": 1, "A.f.dim": 3}, contraction=False)
+        nearlab2["prefix"] = [["op", "state", ["A.f"], "FCustom", {"tag": "tiny"}]]
+        near_label = [("W3/nearly-number-state-3e-3", nearlab, 1), ("W1/nearly-number-state-3e-3/no-contraction", nearlab2, 1)]
+        w8 = SEEDS_W3[:2] + SEEDS_W1[1:2] + [("W3/nearly-pure-1e-7", nearly, 1), ("W3/nearly-pure-1e-3", nearly2, 1), ("W3/nearly-pure-5e-6", nearly3, 1), ("W1/nearly-pure-ampdamp-1.2e-5", nearly4, 1)] + near_label + rich_seeds(1)[1:]
         if not q:
-            w8 = SEEDS_W3 + SEEDS_W1 + [("W3/nearly-pure-1e-7", nearly, 2), ("W3/nearly-pure-1e-3", nearly2, 2), ("W3/nearly-pure-5e-6", nearly3, 2), ("W1/nearly-pure-ampdamp-1.2e-5", nearly4, 2)] + rich_seeds(2)
+            w8 = SEEDS_W3 + SEEDS_W1 + [("W3/nearly-pure-1e-7", nearly, 2), ("W3/nearly-pure-1e-3", nearly2, 2), ("W3/nearly-pure-5e-6", nearly3, 2), ("W1/nearly-pure-ampdamp-1.2e-5", nearly4, 2)] + [(n_, w_, 2) for n_, w_, _ in near_label] + rich_seeds(2)
         return {**base, "prop": "C08", "worlds": w8, "core": core, "probes": probes8, "depth": 2 if q else 3, "twin": "c08"}
     if name == "C18":
         def calls18(m, w, o):
